@@ -56,6 +56,10 @@ type Profile struct {
 	MixedActs    float64 // first attempts fail, later succeed
 	Garbage      float64 // probability that an op is garbage
 	GarbageReply float64
+	// LateReply: the reply comes after the transports' 6 s I/O limit (it is
+	// then a reply nobody waits for any more, on a connection that must not
+	// be used again).
+	LateReply float64
 	Shapes       []string
 	BigAnswers   float64
 	DelayUs      [2]int64
@@ -103,6 +107,14 @@ func ProfileFor(focus, arm string) Profile {
 		p.BigAnswers = 0.25
 		p.OptInReply, p.Rcodes = 0.3, true
 		p.Classes = true
+		if arm == "garbage" {
+			// malformed replies and queries between the valid ones: what a
+			// failed decode leaves behind must not leak into later messages
+			p.GarbageReply, p.Garbage = 0.25, 0.15
+			p.NConns, p.OpsPerConn = [2]int{4, 12}, [2]int{2, 8}
+			p.SpanUs = 300_000
+			p.DelayUs = [2]int64{100, 100_000}
+		}
 	case "C03":
 		p.OddQueries = 0.35
 		p.RichRules = true
@@ -122,6 +134,11 @@ func ProfileFor(focus, arm string) Profile {
 		p.RepeatToken = 0.3
 		p.Yields, p.GC, p.Seg = true, true, true
 		p.Shapes = []string{"plain", "mixed", "binary"}
+		if arm == "late" {
+			p.LateReply = 0.15
+			p.SpanUs = 9_000_000
+			p.Cache = "off"
+		}
 	case "C09":
 		p.BigAnswers = 0.7
 		p.EDNSProb = 0.7
@@ -187,6 +204,11 @@ func Generate(seed uint64, focus, arm string) *plan.Plan {
 	if focus == "C20" || r2.p(0.5) {
 		p.Knobs.PoolPoison = true
 		p.Knobs.PoolQuarantine = []int{0, 4, 32}[r2.intn(3)]
+	}
+	if focus != "C20" && r2.p(0.4) {
+		// no quarantine either: a doubly released array is handed out twice at once
+		p.Knobs.PassDoubleRelease = true
+		p.Knobs.Quarantine = 0
 	}
 	return p
 }
@@ -604,6 +626,11 @@ func genToken(r *rng, pr *Profile, qtype uint16) *plan.TokenSpec {
 		t.Acts = []plan.UpAction{{Kind: k, DelayUs: d()}, {Kind: "reply", DelayUs: d()}}
 	case r.p(pr.GarbageReply):
 		t.Acts = []plan.UpAction{{Kind: "garbage", DelayUs: d(), Raw: r.bytes(r.rng(0, 11)), Arg: r.intn(2)}}
+		if r.p(0.5) {
+			t.Acts[0].Arg = 2 + r.intn(1000) // the real answer cut short (see peers.UpServer)
+		}
+	case r.p(pr.LateReply):
+		t.Acts = []plan.UpAction{{Kind: "reply", DelayUs: r.i64(6_050_000, 7_500_000)}, {Kind: "reply", DelayUs: d()}}
 	default:
 		t.Acts = []plan.UpAction{{Kind: "reply", DelayUs: d()}}
 	}
@@ -748,9 +775,17 @@ func makeGarbage(r *rng, op *plan.ClientOp, proto string) {
 	}
 	op.Raw = b
 	op.EDNS = nil
-	if (proto == "tcp" || proto == "tls" || proto == "gnet") && r.p(0.3) {
+	if (proto == "tcp" || proto == "tls" || proto == "gnet") && r.p(0.4) {
 		// raw frame with a lying prefix
 		l := []int{0, 1, len(b) + 10, 65535, len(b) / 2}[r.intn(5)]
+		if r.p(0.4) {
+			// a declared length of every buffer size class, with fewer bytes
+			// following (the connection then idles or ends inside the body)
+			l = []int{2, 5, 13, 17, 20, 24, 30, 32, 33, 40, 64, 100, 300, 1000, 5000}[r.intn(15)]
+			if len(b) >= l {
+				b = b[:r.intn(l)]
+			}
+		}
 		op.Raw = append([]byte{byte(l >> 8), byte(l)}, b...)
 		op.Method = "rawframe"
 	}
@@ -846,24 +881,42 @@ func specialize(r *rng, p *plan.Plan, focus, arm string) {
 				last = o.AtUs
 			}
 		}
-		for si, srv := range rp.Servers {
-			ci := len(rp.Conns)
-			src := "192.0.2.250"
-			if strings.HasPrefix(srv.Listen, "[::1]") {
-				src = "2001:db8:a::fa"
+		// two probe phases: shortly after the last garbage input, and after the
+		// connections that carried it have ended (a frame cut short is only
+		// given up by the server when its connection closes or idles out)
+		for phase, at := range []int64{last + 1_500_000, last + 10_000_000} {
+			for si, srv := range rp.Servers {
+				// one probe, or a burst of probes from separate connections whose
+				// frames arrive in pieces: whatever the garbage did to shared state
+				// (pooled buffers in particular) has concurrent users to show in
+				burst := 1
+				if r.p(0.6) {
+					burst = r.rng(2, 12)
+				}
+				for k := 0; k < burst; k++ {
+					ci := len(rp.Conns)
+					src := "192.0.2.250"
+					if strings.HasPrefix(srv.Listen, "[::1]") {
+						src = "2001:db8:a::fa"
+					}
+					cc := plan.ClientConn{Idx: ci, Server: si, Src: src, LingerUs: 8_000_000}
+					if burst > 1 && r.p(0.7) {
+						cc.SegMode, cc.SegBytes = 1+r.intn(3), r.rng(1, 9)
+					}
+					rp.Conns = append(rp.Conns, cc)
+					idx := len(rp.Ops)
+					tok := fmt.Sprintf("t%d", idx)
+					op := plan.ClientOp{Idx: idx, Conn: ci, AtUs: at + int64(si)*1000 + int64(k)*int64(r.rng(0, 200)), ID: uint16(0x7000 + phase*1024 + si*64 + k), Token: tok, NQ: 1, Class: 1, Type: 1, Bits: refdns.BitRD,
+						Labels: append([][]byte{[]byte(tok)}, labelsOf("example.com")...)}
+					if srv.Proto == "http" || srv.Proto == "fasthttp" || srv.Proto == "https" {
+						op.Method = "GET"
+					}
+					rp.Ops = append(rp.Ops, op)
+					rp.Tokens[tok] = &plan.TokenSpec{Ans: plan.AnswerSpec{NAn: 1, TTLs: []uint32{60}, Shape: "plain"}, Acts: []plan.UpAction{{Kind: "reply", DelayUs: int64(r.rng(300, 20_000))}}}
+				}
 			}
-			rp.Conns = append(rp.Conns, plan.ClientConn{Idx: ci, Server: si, Src: src, LingerUs: 8_000_000})
-			idx := len(rp.Ops)
-			tok := fmt.Sprintf("t%d", idx)
-			op := plan.ClientOp{Idx: idx, Conn: ci, AtUs: last + 1_500_000 + int64(si)*1000, ID: uint16(0x7000 + si), Token: tok, NQ: 1, Class: 1, Type: 1, Bits: refdns.BitRD,
-				Labels: append([][]byte{[]byte(tok)}, labelsOf("example.com")...)}
-			if srv.Proto == "http" || srv.Proto == "fasthttp" || srv.Proto == "https" {
-				op.Method = "GET"
-			}
-			rp.Ops = append(rp.Ops, op)
-			rp.Tokens[tok] = &plan.TokenSpec{Ans: plan.AnswerSpec{NAn: 1, TTLs: []uint32{60}, Shape: "plain"}, Acts: []plan.UpAction{{Kind: "reply", DelayUs: 500}}}
 		}
-		rp.HorizonUs = last + 1_500_000 + 8_000_000 + 12_000_000
+		rp.HorizonUs = last + 10_000_000 + 8_000_000 + 12_000_000
 	case "C13":
 		if arm == "overload" {
 			// one burst per connection, upstream holds every reply for 2 s
